@@ -5,7 +5,7 @@ from pyvc import vals as V
 from pyvc.vals import Val, SeqV, NONE, fresh
 from pyvc.unit import Unit, LoopSpec, LemmaUnit
 from pyvc.models import UFunc, Rec, Fn, Nop, Future, FutureCtor, PipeWriter, PipeReader
-from pyvc.core import St, Module, box, Unsupported, KwPack, StarPack, Obj, ecode, Callable_
+from pyvc.core import St, Module, box, Unsupported, KwPack, StarPack, Obj, ecode, Callable_, unbox_handle
 
 CTX = 'multiprocessing/context.py'
 THR = 'threading/__init__.py'
@@ -513,6 +513,103 @@ class ThreadException(ThreadAccessor):
                 ex.oblige(s, 'exit(raise): only TimeoutError while still running', z3.And(V.isinst(p, 'TimeoutError'), z3.Not(s.ghost['ended'])))
 
 
+class DictObj(Obj):
+    """a dict with identity (the caller's kwargs vs. a private copy)"""
+
+    def __init__(self, ex, label, keys=()):
+        super().__init__(ex, label)
+        self.keys = set(keys)
+
+    def havoc(self, ex, st):
+        pass
+
+    def setitem(self, ex, st, idx, v, node):
+        st = st.fork()
+        st.ghost['stores'] = st.ghost.get('stores', ()) + ((self, idx.as_string() if z3.is_string_value(idx) else str(idx), v),)
+        return [('ok', st, None)]
+
+    def contains(self, ex, st, item):
+        return z3.BoolVal(False)         # precondition: the private keys are not used by the caller
+
+    def truth(self, ex, st):
+        return fresh('kwargs_nonempty', z3.BoolSort())
+
+
+class ProcInit(Unit):
+    """SpawnProcess.__init__: the pipe's write end and the log queue go into a PRIVATE copy of the caller's kwargs (the parent must
+    not keep the write end alive, or it would never see EOF when the child dies) and the read end / queue are kept on the object."""
+    prop = 'C12'
+    file = CTX
+    qual = 'SpawnProcess.__init__'
+    caller_none = False
+    ignore_stmts = (r'assert not hasattr\(.*',)
+    canaries = (('caller\'s dict used without copying', '            kwargs = dict(kwargs)', '            pass', 'private copy'),
+                ('reader and writer swapped', "kwargs['_result_and_error_'] = writer", "kwargs['_result_and_error_'] = reader", 'write end'))
+
+    def __init__(self):
+        if self.caller_none:
+            self.variant = 'kwargs=None'
+        super().__init__()
+
+    def setup(self, ex):
+        st = St()
+        self.me = Rec(ex, 'self')
+        self.caller = DictObj(ex, 'caller_kwargs')
+        self.reader, self.writer = Rec(ex, 'reader'), Rec(ex, 'writer')
+        from pyvc.vals import PyTuple
+        st.env.update(self=self.me, args=StarPack(z3.Const('args', Val)), kwargs=(NONE if self.caller_none else self.caller), moreargs=KwPack(z3.Const('moreargs', Val)))
+        ex.globals['multiprocessing.connection.Pipe'] = Fn(lambda e, s, a, k, n: [('ok', s, PyTuple([self.reader, self.writer]))], trusted='Pipe(duplex=False) returns (read end, write end)')
+        self.logq = Rec(ex, 'logq')
+        ex.globals['MP_SPAWN_CTX'] = Rec(ex, 'ctx', methods={'Queue': Fn(lambda e, s, a, k, n: [('ok', s, self.logq)])})
+        self.copies = []
+
+        def mkdict(e, s, a, k, n):
+            d = DictObj(e, 'private_kwargs')
+            self.copies.append((d, unbox_handle(e, a[0]) if a else None))
+            return [('ok', s, d)]
+        ex.globals['dict'] = Fn(mkdict, name='dict')
+        st.ghost['super_init'] = ()
+        return st
+
+    def ev_hook(self):
+        pass
+
+    def on_call(self, ex, st, e, src):
+        if src == 'super().__init__':
+            def f(s, ak):
+                s = s.fork()
+                s.ghost['super_init'] = s.ghost['super_init'] + ((ak[0], ak[1]),)
+                return [('ok', s, NONE)]
+            return ex.bind(ex.evargs(e, st), f)
+        if src == 'dict' and not e.args:
+            return None
+        return None
+
+    def post(self, ex, outs):
+        for k, s, p in outs:
+            if k in ('normal', 'return'):
+                stores = s.ghost.get('stores', ())
+                target = {key: (d, v) for d, key, v in stores}
+                sup = s.ghost['super_init']
+                ok = set(target) == {'_result_and_error_', '_logger_queue_'} and len(sup) == 1
+                if ok:
+                    d1, w = target['_result_and_error_']
+                    d2, q = target['_logger_queue_']
+                    passed = unbox_handle(ex, sup[0][1].get('kwargs'))
+                    ok = d1 is d2 and d1 is not self.caller and unbox_handle(ex, w) is self.writer and unbox_handle(ex, q) is self.logq and passed is d1
+                    ok = ok and (self.caller_none or any(c[0] is d1 and c[1] is self.caller for c in self.copies))
+                    ok = ok and self.me.get(s, '_result_and_error_') is self.reader and self.me.get(s, '_logger_queue_') is self.logq
+                ex.oblige(s, 'exit: write end + log queue stored in a private copy of the caller\'s kwargs (which is what the child receives); read end + queue kept on the object',
+                          z3.BoolVal(bool(ok)))
+            else:
+                ex.oblige(s, 'exit: does not raise (under the precondition that the private keys are unused)', False)
+
+
+class ProcInitNone(ProcInit):
+    caller_none = True
+    canaries = ()
+
+
 class Agreement(LemmaUnit):
     """Top-level lemma: the accessors agree with each other because each equals a function of the single outcome stored
     in the future (ProcessRun table -> pipe -> CollectResult -> future -> accessors)."""
@@ -531,7 +628,7 @@ class Agreement(LemmaUnit):
                z3.And(j_raises == r_raises, j_raises == z3.Not(V.is_none(exc_ret)), z3.Implies(j_raises, z3.And(j_exc == r_exc, j_exc == exc_ret))))
 
 
-UNITS = [ProcessRun, ProcessRunNoTarget, CollectResult, ProcJoin, ProcJoinTimeout, ProcException, ProcResult, ProcDone,
+UNITS = [ProcInit, ProcInitNone, ProcessRun, ProcessRunNoTarget, CollectResult, ProcJoin, ProcJoinTimeout, ProcException, ProcResult, ProcDone,
          ThreadRun, ThreadRunNoTarget, ThreadJoin, ThreadResult, ThreadException, Agreement]
 
 SCENARIOS = [('', 'replay/scenarios/c12_sigkill_wait.py')]
